@@ -307,7 +307,7 @@ fn place(rng: &mut Rng, gs: Vec<Geometry<f64>>) -> (f64, Vec<Geometry<f64>>) {
         return (1.0, gs);
     }
     let s = 2f64.powi(rng.range(-3, 4) as i32);
-    let m = *rng.pick(&[5i64, 100, 1 << 12]);
+    let m = *rng.pick(&[5i64, 100, 1 << 12, 1 << 28, 1 << 30]);
     let (dx, dy) = (rng.range(-m, m) as f64, rng.range(-m, m) as f64);
     let f = move |p: Coord<f64>| Coord { x: (p.x + dx) * s, y: (p.y + dy) * s };
     (s, gs.into_iter().map(|g| g.map_coords(f)).collect())
